@@ -26,6 +26,7 @@ fn cases(ob: &str) -> Vec<String> {
     }
     for (ti, _) in trivia().iter().enumerate() { for si in 0..token_seqs().len() { out.push(format!("triv:{}:{}", ti, si)); } }
     out.push("leak:0".into()); out.push("leak:1".into());
+    for k in 0..4 { out.push(format!("seq:{}", k)); }
     for t in ["(a . b )", "(1 2 . 3\n)", "(a . b ;c\n)", "( a )", "(a . b\t) c", "[a . b ]", "#( 1 )", "#u8( 1 2 )", "' a", "'#z '#z (a)", "", ")", "(", "#", "\"abc", "(a . )", "1.", "#\\", "]", "(]", "#u8(300)", "a)b", ") ) )", "(1 #z) 2", "#(1 #z) 2", "(1 (2 #z) 3) 4", "[1 #z] 2", "(a . #z) b", "#u8(1 x) 2", "(1 2", "\"x", "1 #z 2"] {
         out.push(format!("iter:{}", crate::hex(t.as_bytes())));
     }
@@ -50,6 +51,35 @@ fn read_all(text: &str, datum: bool) -> Vec<String> {
 fn check(case: &str) -> Option<String> {
     let p: Vec<&str> = case.split(':').collect();
     match p[0] {
+        "seq" => {
+            // ONE parser reads a long heterogeneous sequence (buffers, look-ahead and budget carried from item to item): every item equals the item parsed on its own
+            let k = p[1].parse::<usize>().ok()?;
+            let mut items: Vec<Value> = values();
+            items.extend([Value::from("a long string with an escape \\ and \n a line break, longer than the ones before it"), Value::from(""), Value::symbol("a-rather-long-symbol-name-that-outgrows-the-buffer"), Value::symbol("s"),
+                          Value::from("\u{3bb}\u{1f600}"), Value::keyword("long-keyword-name"), Value::from('\u{1f600}'), Value::from(vec![1u8, 2, 255].into_boxed_slice()), Value::from(""), Value::from("z"),
+                          Value::list(vec![Value::from("in a list"), Value::symbol("sym"), Value::from('c')]), Value::from(18446744073709551615u64), Value::from(-9223372036854775807i64), Value::from(1e300), Value::from("end")]);
+            if k % 2 == 1 { items.reverse(); }
+            if k >= 2 { let d = items.clone(); items.extend(d); }
+            for (popt, ropt) in [(lexpr::print::Options::default(), lexpr::parse::Options::default()), (lexpr::print::Options::elisp(), lexpr::parse::Options::elisp())] {
+                let texts: Vec<String> = items.iter().map(|v| lexpr::to_string_custom(v, popt).unwrap()).collect();
+                let alone: Vec<Result<Value, String>> = texts.iter().map(|t| lexpr::from_str_custom(t, ropt.clone()).map_err(|e| e.to_string())).collect();
+                for sep in [" ", "\n", " ; c\n"] {
+                    let text = texts.join(sep);
+                    let runs: Vec<(&str, Vec<Result<Value, String>>)> = vec![
+                        ("next_value over &str", { let mut q = Parser::from_str_custom(&text, ropt.clone()); let mut o = vec![]; while let Some(r) = q.next_value().transpose() { o.push(r.map_err(|e| e.to_string())); if o.len() > items.len() + 2 || o.last().unwrap().is_err() { break; } } o }),
+                        ("datum_iter over a byte slice", { let mut q = Parser::from_slice_custom(text.as_bytes(), ropt.clone()); let mut o = vec![]; for r in q.datum_iter() { o.push(r.map(|d| d.value().clone()).map_err(|e| e.to_string())); if o.len() > items.len() + 2 || o.last().unwrap().is_err() { break; } } o }),
+                        ("value_iter over a stream", { let mut q = Parser::from_reader_custom(text.as_bytes(), ropt.clone()); let mut o = vec![]; for r in q.value_iter() { o.push(r.map_err(|e| e.to_string())); if o.len() > items.len() + 2 || o.last().unwrap().is_err() { break; } } o }),
+                    ];
+                    for (how, got) in runs {
+                        if got.len() != alone.len() { return Some(format!("{} items printed one after the other (separator {:?}): {} yields {} items", alone.len(), sep, how, got.len())); }
+                        for (i, (g, a)) in got.iter().zip(alone.iter()).enumerate() {
+                            if g != a { return Some(format!("item {} ({:?}) of a sequence of {} read by {} is {:?}, parsed on its own it is {:?}", i, texts[i], alone.len(), how, g, a)); }
+                        }
+                    }
+                }
+            }
+            None
+        }
         "concat" => {
             let t = trivia()[p[1].parse::<usize>().ok()?];
             let a = values()[p[2].parse::<usize>().ok()?].clone();
